@@ -943,3 +943,24 @@ def _bisect_left(interp, st, args, kwargs):
 
 
 BISECT = Obj('bisect', bisect_left=Model('bisect.bisect_left', _bisect_left))
+
+
+def ctor_model(cls, defaults=None, name=None):
+    """constructor of a heap class (dataclass / NamedTuple)"""
+    defaults = defaults or {}
+
+    def fn(interp, st, args, kwargs):
+        names = list(cls.fields)
+        vals = dict(zip(names, args))
+        vals.update(kwargs)
+        r = ops.new_heap(st, cls)
+        for f, ty in cls.fields.items():
+            if f in vals:
+                v = vals[f]
+            elif f in defaults:
+                v = defaults[f]
+            else:
+                raise Unsupported(f'{cls.name}(): missing field {f}')
+            st.heap.write(cls, f, r.z, to_ty(interp, st, v, ty).z)
+        yield st, r
+    return Model(name or cls.name, fn)
